@@ -126,6 +126,103 @@ def inflight_entries(req):
         return req.get('t'), out
     return None, []
 
+def model_of(I):
+    """plain snapshot of an Instance's model: topic -> {log: [summaries], consumed, resync}"""
+    return {t: {'log': [summary(*e) for e in T.log], 'consumed': T.consumed, 'resync': bool(T.resync)} for t, T in I.topics.items()}
+
+def used_br_of(ops):
+    used = set()
+    for op in ops:
+        a = op[1] if len(op) > 1 else {}
+        if (op[0] == 'br' and a.get('cp', True) and a.get('start') is None) or (op[0] == 'drain' and a.get('api') == 'br') or \
+           (op[0] == 'peekpair' and a.get('api') == 'br'):
+            used.add(a.get('t'))
+    return used
+
+def judge(M, params, req, topics, full, asleft, used_br):
+    """compare what fresh processes recovered (full-log copy and directory as left) with the acknowledgement model M and the in-flight request;
+    returns (findings, compared entries)"""
+    findings = []
+    it, ients = inflight_entries(req)
+    n_cmp = 0
+    for name, rec in (('full-log', full), ('as-left', asleft)):
+        if 'open' in rec:
+            r = rec['open']
+            findings.append({'prop': 'C07', 'cls': 'open-failed(%s)' % ('panic' if 'panic' in r else 'err'),
+                             'detail': {'dir': name, 'reply': r}})
+        if 'died' in rec:
+            findings.append({'prop': 'C07', 'cls': 'recovery-died', 'detail': {'dir': name, **rec['died']}})
+        for e in rec.get('errors', []):
+            findings.append({'prop': 'C07', 'cls': 'read-failed-after-recovery(%s)' % ('panic' if 'panic' in e['reply'] else 'err'),
+                             'detail': {'dir': name, **e}})
+    n_cmp = 0
+    if 'open' not in full and 'died' not in full:
+        for t in topics:
+            T = M.get(t)
+            exp = list(T['log']) if T else []
+            got = full['topics'].get(t, [])
+            extra_ok = ients if t == it else []
+            n_cmp += len(got)
+            if got[:len(exp)] != exp:
+                k = next((i for i in range(min(len(got), len(exp))) if got[i] != exp[i]), min(len(got), len(exp)))
+                if k >= len(got) or got[k] in exp[k + 1:]:
+                    cls = 'acked-missing'
+                elif got[k] in exp[:k]:
+                    cls = 'acked-duplicated'
+                else:
+                    cls = 'acked-corrupt-or-foreign'
+                findings.append({'prop': 'C07', 'cls': cls, 'detail': {'topic': t, 'acked': len(exp), 'recovered': len(got), 'first_diff': k,
+                                                                       'expected': exp[k] if k < len(exp) else None,
+                                                                       'got': got[k] if k < len(got) else None}})
+                continue
+            extra = got[len(exp):]
+            if not is_subseq(extra, extra_ok):
+                findings.append({'prop': 'C07', 'cls': 'foreign-entry', 'detail': {'topic': t, 'extra': extra[:4], 'inflight_n': len(extra_ok)}})
+            elif req.get('op') == 'batch' and t == it and len(ients) >= 2 and 0 < len(extra) < len(ients):
+                shape = 'prefix' if extra == ients[:len(extra)] else 'non-prefix'
+                findings.append({'prop': 'C08', 'cls': 'partial-batch(in-flight)', 'detail': {'topic': t, 'batch_entries': len(ients), 'recovered': len(extra), 'shape': shape}})
+    # ---- (b) as left: consumer position
+    if 'open' not in asleft and 'died' not in asleft:
+        for t in topics:
+            T = M.get(t)
+            log = list(T['log']) if T else []
+            got = asleft['topics'].get(t, [])
+            n_cmp += len(got)
+            c = T['consumed'] if T else 0
+            hi = c
+            if req.get('t') == t and req.get('cp', True) and req.get('start') is None:
+                if req.get('op') == 'read_next':
+                    hi = min(c + 1, len(log))
+                elif req.get('op') == 'batch_read':
+                    hi = len(log)
+            extra_ok = ients if t == it else []
+            # find p with got == log[p:] + extra
+            ps = [p for p in range(0, len(log) + 1) if got[:len(log) - p] == log[p:] and is_subseq(got[len(log) - p:], extra_ok)
+                  and len(got) >= len(log) - p]
+            det = {'topic': t, 'returned_reads': c, 'in_flight': req.get('op') if hi != c else None, 'appended': len(log), 'recovered': len(got),
+                   'mode': params.get('mode')}
+            if not ps:
+                findings.append({'prop': 'C09', 'cls': 'resume-not-a-suffix', 'detail': {**det, 'first_got': got[:2]}})
+                continue
+            strict = params.get('mode', 'strict') == 'strict'
+            resync = bool(T and T['resync'])
+            if strict:
+                ok = [p for p in ps if c <= p <= hi]
+                if not ok:
+                    p = min(ps, key=lambda p: abs(p - c))
+                    cls = 'redelivered-after-crash(strict)' if p < c else 'skipped-after-crash(strict)'
+                    findings.append({'prop': 'C09', 'cls': cls, 'detail': {**det, 'resumed_at': p}})
+            else:
+                ok = [p for p in ps if p <= hi]
+                if not ok:
+                    findings.append({'prop': 'C09', 'cls': 'skipped-after-crash(alo)', 'detail': {**det, 'resumed_at': min(ps)}})
+                elif not resync and t not in used_br and isinstance(params.get('mode'), dict):
+                    pe = params['mode'].get('alo', 1)
+                    p = max(ok)
+                    if c - p > pe:
+                        findings.append({'prop': 'C09', 'cls': 'redelivery-exceeds-persist-every', 'detail': {**det, 'resumed_at': p, 'persist_every': pe}})
+    return findings, n_cmp
+
 def crash_case(binary, prog, spec, recover_api='rn', timeout=120.0):
     """returns dict(outcome=..., findings=[{prop, cls, detail}], info=...)"""
     d = fresh_dir('crash')
@@ -163,88 +260,7 @@ def crash_case(binary, prog, spec, recover_api='rn', timeout=120.0):
         full = recover(binary, d2, params, topics, recover_api)
         rmdir(d2); d2 = None
         asleft = recover(binary, d, params, topics, 'rn' if recover_api == 'br' else recover_api)
-        for name, rec in (('full-log', full), ('as-left', asleft)):
-            if 'open' in rec:
-                r = rec['open']
-                findings.append({'prop': 'C07', 'cls': 'open-failed(%s)' % ('panic' if 'panic' in r else 'err'),
-                                 'detail': {'dir': name, 'reply': r}})
-            if 'died' in rec:
-                findings.append({'prop': 'C07', 'cls': 'recovery-died', 'detail': {'dir': name, **rec['died']}})
-            for e in rec.get('errors', []):
-                findings.append({'prop': 'C07', 'cls': 'read-failed-after-recovery(%s)' % ('panic' if 'panic' in e['reply'] else 'err'),
-                                 'detail': {'dir': name, **e}})
-        n_cmp = 0
-        if 'open' not in full and 'died' not in full:
-            for t in topics:
-                T = I.topics.get(t)
-                exp = [summary(*e) for e in (T.log if T else [])]
-                got = full['topics'].get(t, [])
-                extra_ok = ients if t == it else []
-                n_cmp += len(got)
-                if got[:len(exp)] != exp:
-                    k = next((i for i in range(min(len(got), len(exp))) if got[i] != exp[i]), min(len(got), len(exp)))
-                    if k >= len(got) or got[k] in exp[k + 1:]:
-                        cls = 'acked-missing'
-                    elif got[k] in exp[:k]:
-                        cls = 'acked-duplicated'
-                    else:
-                        cls = 'acked-corrupt-or-foreign'
-                    findings.append({'prop': 'C07', 'cls': cls, 'detail': {'topic': t, 'acked': len(exp), 'recovered': len(got), 'first_diff': k,
-                                                                           'expected': exp[k] if k < len(exp) else None,
-                                                                           'got': got[k] if k < len(got) else None}})
-                    continue
-                extra = got[len(exp):]
-                if not is_subseq(extra, extra_ok):
-                    findings.append({'prop': 'C07', 'cls': 'foreign-entry', 'detail': {'topic': t, 'extra': extra[:4], 'inflight_n': len(extra_ok)}})
-                elif req.get('op') == 'batch' and t == it and len(ients) >= 2 and 0 < len(extra) < len(ients):
-                    shape = 'prefix' if extra == ients[:len(extra)] else 'non-prefix'
-                    findings.append({'prop': 'C08', 'cls': 'partial-batch(in-flight)', 'detail': {'topic': t, 'batch_entries': len(ients), 'recovered': len(extra), 'shape': shape}})
-        # ---- (b) as left: consumer position
-        if 'open' not in asleft and 'died' not in asleft:
-            used_br = set()
-            for op in prog['ops'][:sr.opi + 1]:
-                a = op[1] if len(op) > 1 else {}
-                if (op[0] == 'br' and a.get('cp', True) and a.get('start') is None) or (op[0] == 'drain' and a.get('api') == 'br') or \
-                   (op[0] == 'peekpair' and a.get('api') == 'br'):
-                    used_br.add(a.get('t'))
-            for t in topics:
-                T = I.topics.get(t)
-                log = [summary(*e) for e in (T.log if T else [])]
-                got = asleft['topics'].get(t, [])
-                n_cmp += len(got)
-                c = T.consumed if T else 0
-                hi = c
-                if req.get('t') == t and req.get('cp', True) and req.get('start') is None:
-                    if req.get('op') == 'read_next':
-                        hi = min(c + 1, len(log))
-                    elif req.get('op') == 'batch_read':
-                        hi = len(log)
-                extra_ok = ients if t == it else []
-                # find p with got == log[p:] + extra
-                ps = [p for p in range(0, len(log) + 1) if got[:len(log) - p] == log[p:] and is_subseq(got[len(log) - p:], extra_ok)
-                      and len(got) >= len(log) - p]
-                det = {'topic': t, 'returned_reads': c, 'in_flight': req.get('op') if hi != c else None, 'appended': len(log), 'recovered': len(got),
-                       'mode': params.get('mode')}
-                if not ps:
-                    findings.append({'prop': 'C09', 'cls': 'resume-not-a-suffix', 'detail': {**det, 'first_got': got[:2]}})
-                    continue
-                strict = params.get('mode', 'strict') == 'strict'
-                resync = bool(T and T.resync)
-                if strict:
-                    ok = [p for p in ps if c <= p <= hi]
-                    if not ok:
-                        p = min(ps, key=lambda p: abs(p - c))
-                        cls = 'redelivered-after-crash(strict)' if p < c else 'skipped-after-crash(strict)'
-                        findings.append({'prop': 'C09', 'cls': cls, 'detail': {**det, 'resumed_at': p}})
-                else:
-                    ok = [p for p in ps if p <= hi]
-                    if not ok:
-                        findings.append({'prop': 'C09', 'cls': 'skipped-after-crash(alo)', 'detail': {**det, 'resumed_at': min(ps)}})
-                    elif not resync and t not in used_br and isinstance(params.get('mode'), dict):
-                        pe = params['mode'].get('alo', 1)
-                        p = max(ok)
-                        if c - p > pe:
-                            findings.append({'prop': 'C09', 'cls': 'redelivery-exceeds-persist-every', 'detail': {**det, 'resumed_at': p, 'persist_every': pe}})
+        findings, n_cmp = judge(model_of(I), params, req, topics, full, asleft, used_br_of(prog['ops'][:sr.opi + 1]))
         info['compared_entries'] = n_cmp
         return {'outcome': 'crashed', 'findings': findings, 'info': info, 'pre': []}
     finally:
